@@ -12,37 +12,37 @@ import (
 
 // toRef converts a library point to the model's affine form using the
 // math/big based conversion (independent of the library's own inversion).
-func toRef(p *SM2Point) (ref.Pt, bool) {
-	zz := rawBig(p.z)
+func zvToRef(p *SM2Point) (ref.Pt, bool) {
+	zz := zvRawBig(p.z)
 	if zz.Sign() == 0 {
 		return ref.Inf(), true
 	}
 	zi := new(big.Int).ModInverse(zz, ref.SM2P)
-	x := new(big.Int).Mul(rawBig(p.x), zi)
-	y := new(big.Int).Mul(rawBig(p.y), zi)
+	x := new(big.Int).Mul(zvRawBig(p.x), zi)
+	y := new(big.Int).Mul(zvRawBig(p.y), zi)
 	x.Mod(x, ref.SM2P)
 	y.Mod(y, ref.SM2P)
 	return ref.Pt{X: x, Y: y}, true
 }
 
-var rInv = new(big.Int).ModInverse(new(big.Int).Lsh(big.NewInt(1), 256), ref.SM2P)
+var zvRInv = new(big.Int).ModInverse(new(big.Int).Lsh(big.NewInt(1), 256), ref.SM2P)
 
 // montBig interprets four little-endian limbs as a Montgomery-domain value and
 // returns the ordinary residue (limbs * 2^-256 mod p), without using the
 // library's own conversion.
-func montBig(l *[4]uint64) *big.Int {
+func zvMontBig(l *[4]uint64) *big.Int {
 	v := new(big.Int)
 	for i := 3; i >= 0; i-- {
 		v.Lsh(v, 64)
 		v.Or(v, new(big.Int).SetUint64(l[i]))
 	}
-	v.Mul(v, rInv)
+	v.Mul(v, zvRInv)
 	return v.Mod(v, ref.SM2P)
 }
 
-func rawBig(e *fiat.SM2Element) *big.Int { return montBig(e.GetRaw()) }
+func zvRawBig(e *fiat.SM2Element) *big.Int { return zvMontBig(e.GetRaw()) }
 
-func elemFromBig(v *big.Int) *fiat.SM2Element {
+func zvElemFromBig(v *big.Int) *fiat.SM2Element {
 	e, err := new(fiat.SM2Element).SetBytes(ref.B32(new(big.Int).Mod(v, ref.SM2P)))
 	if err != nil {
 		panic(err)
@@ -52,23 +52,23 @@ func elemFromBig(v *big.Int) *fiat.SM2Element {
 
 // fromRef builds a projective representative (X·λ : Y·λ : λ) of the model point;
 // infinity becomes (0 : λ : 0).
-func fromRef(p ref.Pt, lambda *big.Int) *SM2Point {
+func zvFromRef(p ref.Pt, lambda *big.Int) *SM2Point {
 	if lambda == nil || lambda.Sign() == 0 {
 		lambda = big.NewInt(1)
 	}
 	if p.Inf {
-		return &SM2Point{x: new(fiat.SM2Element), y: elemFromBig(lambda), z: new(fiat.SM2Element)}
+		return &SM2Point{x: new(fiat.SM2Element), y: zvElemFromBig(lambda), z: new(fiat.SM2Element)}
 	}
 	return &SM2Point{
-		x: elemFromBig(new(big.Int).Mul(p.X, lambda)),
-		y: elemFromBig(new(big.Int).Mul(p.Y, lambda)),
-		z: elemFromBig(lambda),
+		x: zvElemFromBig(new(big.Int).Mul(p.X, lambda)),
+		y: zvElemFromBig(new(big.Int).Mul(p.Y, lambda)),
+		z: zvElemFromBig(lambda),
 	}
 }
 
 // onCurveProjective checks Y^2 Z = X^3 - 3 X Z^2 + b Z^3 on the raw coordinates.
-func onCurveProjective(p *SM2Point) bool {
-	X, Y, Z := rawBig(p.x), rawBig(p.y), rawBig(p.z)
+func zvOnCurveProjective(p *SM2Point) bool {
+	X, Y, Z := zvRawBig(p.x), zvRawBig(p.y), zvRawBig(p.z)
 	P := ref.SM2P
 	l := new(big.Int).Mul(Y, Y)
 	l.Mul(l, Z)
@@ -86,14 +86,14 @@ func onCurveProjective(p *SM2Point) bool {
 	return l.Cmp(r) == 0
 }
 
-func ptHex(p ref.Pt) string {
+func zvPtHex(p ref.Pt) string {
 	if p.Inf {
 		return "inf"
 	}
 	return hk.Hex(ref.B32(p.X)) + "," + hk.Hex(ref.B32(p.Y))
 }
 
-func randScalarI(rng *hk.RNG) *big.Int {
+func zvRandScalarI(rng *hk.RNG) *big.Int {
 	for {
 		k := new(big.Int).SetBytes(rng.Bytes(32))
 		if k.Sign() > 0 && k.Cmp(ref.SM2N) < 0 {
@@ -102,14 +102,14 @@ func randScalarI(rng *hk.RNG) *big.Int {
 	}
 }
 
-func bi(x int64) *big.Int { return big.NewInt(x) }
+func zvBi(x int64) *big.Int { return big.NewInt(x) }
 
-var b256 = new(big.Int).Lsh(big.NewInt(1), 256)
+var zvB256 = new(big.Int).Lsh(big.NewInt(1), 256)
 
 // patternedPoints returns curve points whose affine x has a carry-critical INTERNAL representation in
 // the coordinate field (x * 2^256 mod p made of limbs 0, 1, 2^32, 2^63, 2^64-1, limbs of p and of the
 // curve constant b ...): "nice" coordinates look random inside, these are the ones that do not.
-func patternedPoints(rng *hk.RNG, count int) []ref.Pt {
+func zvPatternedPoints(rng *hk.RNG, count int) []ref.Pt {
 	R := new(big.Int).Lsh(big.NewInt(1), 256)
 	rinv := new(big.Int).ModInverse(R, ref.SM2P)
 	alpha := []uint64{0, 1, 1 << 32, 1 << 63, 1<<64 - 1, 0xFFFFFFFF00000000, 0xFFFFFFFE00000000, 1<<32 - 1, 0xFFFFFFFEFFFFFFFF, 1<<64 - 2}
